@@ -75,12 +75,14 @@ int_ = int64
 def _dt(d, default=_np.float64):
     if d is None:
         return _np.dtype(default)
-    if d is float:
-        return _np.dtype('float64')
-    if d is int:
-        return _np.dtype('int64')
-    if d is bool:
-        return _np.dtype('bool')
+    if isinstance(d, type) and not issubclass(d, _np.generic):
+        # python scalar types (incl. the symbolic-aware float / int stand-ins injected into loaded modules)
+        if issubclass(d, bool):
+            return _np.dtype('bool')
+        if issubclass(d, float):
+            return _np.dtype('float64')
+        if issubclass(d, int):
+            return _np.dtype('int64')
     return _np.dtype(d)
 
 
@@ -1166,6 +1168,8 @@ def asarray(x, dtype=None, **kw):
         return x.astype(dtype)
     if hasattr(x, '_sx_array_'):
         return asarray(x._sx_array_(), dtype)
+    if hasattr(x, 'compute') and hasattr(x, 'numblocks'):
+        return asarray(x.compute(), dtype)     # np.asarray(dask array) computes it
     if isinstance(x, _np.ndarray):
         a = SymArray.from_list([_unnp(v) for v in x.ravel().tolist()] if x.dtype != object else list(x.ravel()), x.shape, x.dtype if x.dtype != object else _infer_dtype(list(x.ravel())))
         return a if dtype is None else a.astype(dtype)
